@@ -857,6 +857,10 @@ func (rule *RuleExpression) checkMatrixExpression(expr *String) *ObjectType {
 	if !ok {
 		return NewEmptyObjectType()
 	}
+	// The object may be shared with other expressions (e.g. the type of `inputs` context when the
+	// matrix is `${{ inputs }}`). Copy it before removing "include" and "exclude" below. Otherwise
+	// the properties are lost for expressions in the jobs checked after this job.
+	matTy = matTy.DeepCopy().(*ObjectType)
 
 	// Consider properties in include section elements since 'include' section adds matrix values
 	incTy, ok := matTy.Props["include"]
